@@ -25,6 +25,16 @@ CLAIMED = {
         "watchdog in ./check, never as a violation.",
         "DESIGN.md section 4, C01",
     ),
+    "C19": (
+        "proptest random search over generated command trees x adversarial text substitutions; no-panic, determinism, coverage, and a metamorphic control-line-invariance oracle (same page shape as an innocuous twin), shrinking",
+        "Man pages are rendered for every level of generated trees: no panic in render or any section renderer, two renders identical, "
+        "every visible option/positional/subcommand entry present and hidden ones absent; then adversarial strings (leading . or ', such "
+        "lines after newlines, backslashes, empty/blank, CRLF) are substituted into any author text slot and the sequence of roff request "
+        "names must equal that of the page rendered with innocuous text of the same line shape, so no author text can start a request.",
+        "Only request names are compared (arguments of .TH/.SH legitimately carry author text); coverage judged on plain-text pages; roff "
+        "semantics of escapes inside text lines are trusted to the roff crate.",
+        "DESIGN.md section 4, C19",
+    ),
     "C20": (
         "bounded-exhaustive enumeration + proptest random search, two-pointer content-preservation walk and width invariant as oracle, via guarded hook and public help path",
         "All texts up to 7 letters (thorough 8) over {word, space, newline, wide, zero-width, SGR} x widths 0..6 x plain/styled, plus random "
